@@ -166,8 +166,9 @@ def gen_use(rng, units, target, form, tag, counter, knobs):
     if form == "twice":
         sub = rng.choice([("only", "only"), ("only", "only_rename"), ("plain", "only"), ("only_rename", "plain"),
                           ("plain", "plain"), ("only_rename", "only_rename")])
-        if knobs.get("regions") and rng.random() < 0.3:
-            sub = rng.choice([("plain", "only_rename"), ("rename", "only")])
+        if knobs.get("regions") and rng.random() < 0.5:
+            sub = rng.choice([("plain", "only_rename"), ("only_rename", "plain"), ("rename", "only"), ("rename", "plain"),
+                              ("plain", "rename")])
         return (gen_use(rng, units, target, sub[0], tag, counter, knobs)
                 + gen_use(rng, units, target, sub[1], tag, counter, knobs))
     raise ValueError(form)
@@ -274,7 +275,7 @@ def gen_nested(rng, units, u, forms, knobs):
     mods = [x for x in units if x["unit"] == "module"]
     shallow = {x["target"].lower() for x in u["uses"]}
     counter = [100]
-    nforms = [f for f in forms if f in ("plain", "only", "only_rename", "prefix")] or ["plain"]
+    nforms = [f for f in forms if f in ("plain", "only", "only_rename", "prefix", "twice")] or ["plain"]
     chains = [c for c in CHAINS if knobs.get("regions") or c not in ("absint_mod", "generic_body", "absint_proc")]
     k = 0
 
